@@ -214,6 +214,11 @@ def h_scalars(H):
             v = run_function(it, spikeglx._get_neuropixel_version_from_meta, [dict(md)])
             mv = run_function(it, spikeglx._get_neuropixel_major_version_from_meta, [dict(md)])
             it.ctx.oblige(f"version.{probe}", z3.BoolVal(v == want[probe][0] and mv == want[probe][1]), "post")
+        # 3B2 is told from 3B1 by the PRESENCE of the port / slot fields, whatever their values (port / slot numbers start at 0 on some rigs)
+        port, slot = z3.Reals("imDatPrb_port imDatPrb_slot")
+        it.ctx.assume(z3.And(port >= 0, slot >= 0))
+        v = run_function(it, spikeglx._get_neuropixel_version_from_meta, [{"imDatPrb_type": 0.0, "imDatPrb_port": SV(port), "imDatPrb_slot": SV(slot), "typeThis": "imec"}])
+        it.ctx.oblige("version.3B2.any_port_and_slot", z3.BoolVal(v == "3B2"), "post", "both fields present -> 3B2, for every port and slot number (0 included)")
         # range_volts = sample2volts * maxint
         s2v = A.fresh_array("s2v", "float32", (nap + nsy,))
         maxint = z3.Int("maxint")
@@ -235,13 +240,20 @@ def native_s2v_cases(rng, n):
     bad = []
     gains_ap = [50, 125, 250, 500, 1000, 1500, 2000, 3000]
     gains_lf = [50, 125, 250, 500, 1000]
+    ga = gl = None
     for t in range(n):
         kind = ["3A", "3B2", "NP2.1", "NP2.4", "NPultra"][t % 5]
         nsaved = int(rng.choice([384, 276, 200, 96, 17]))
-        ga = rng.choice(gains_ap, 384)
-        gl = rng.choice(gains_lf, 384)
-        rngmax = float(rng.choice([0.6, 0.5, 0.62]))
-        maxint = int(rng.choice([512, 2048, 8192]))
+        if t % 3 != 1 or ga is None:
+            ga = rng.choice(gains_ap, 384)
+            gl = rng.choice(gains_lf, 384)
+        else:
+            # the same gain table (byte-identical imroTbl) and channel count as the previous file of this kind, another full-scale range / max integer:
+            # derived quantities are a function of the file at hand, not of files converted earlier in the process
+            kind, nsaved = prev_kind, prev_nsaved
+        prev_kind, prev_nsaved = kind, nsaved
+        rngmax = float(rng.choice([0.6, 0.5, 0.62, 1.2]))
+        maxint = int(rng.choice([512, 1024, 2048, 8192]))
         band = ["ap", "lf"][t % 2]
         if kind.startswith("NP2"):
             imro = "(24,384)" + "".join(f"({i} 0 0 0 {i})" for i in range(384))
@@ -249,8 +261,10 @@ def native_s2v_cases(rng, n):
             imro = "(0,384)" + "".join(f"({i} 0 0 {ga[i]} {gl[i]} 1)" for i in range(384))
         md = {"typeThis": "imec", "imAiRangeMax": rngmax, "imMaxInt": float(maxint), "nSavedChans": float(nsaved + 1), "imroTbl": imro,
               "snsApLfSy": [float(nsaved), 0.0, 1.0] if band == "ap" else [0.0, float(nsaved), 1.0], "imSampRate": 30000.0}
-        md.update({"3A": {"typeEnabled": "1"}, "3B2": {"imDatPrb_type": 0.0, "imDatPrb_port": 1.0, "imDatPrb_slot": 2.0}, "NP2.1": {"imDatPrb_type": 21.0},
+        md.update({"3A": {"typeEnabled": "1"}, "3B2": {"imDatPrb_type": 0.0, "imDatPrb_port": float(t % 3), "imDatPrb_slot": float((t // 3) % 4)}, "NP2.1": {"imDatPrb_type": 21.0},
                    "NP2.4": {"imDatPrb_type": 2013.0}, "NPultra": {"imDatPrb_type": 1100.0}}[kind])
+        if kind == "3B2" and spikeglx._get_neuropixel_version_from_meta(md) != "3B2":
+            bad.append(("version of a 3B2 file with port / slot", md["imDatPrb_port"], md["imDatPrb_slot"]))
         out = spikeglx._conversion_sample2v_from_meta(md)
         g = {"ap": ga, "lf": gl}
         for key in ("ap", "lf"):
